@@ -6,6 +6,7 @@ package config
 // totality only.
 
 import (
+	"net/netip"
 	"bytes"
 	"encoding/json"
 	"fmt"
@@ -266,7 +267,11 @@ func c02Sweep(yield func(c02Case) bool) {
 			return
 		}
 	}
-	for _, h := range []int64{-1, 0, 1, 64, 255, 256, 1 << 31, -(1 << 31)} {
+	hops := []int64{1 << 31, -(1 << 31), 1 << 32, 65536, 65535, -256, -255}
+	for h := int64(-2); h <= 258; h++ { // every value of the 8-bit field and its neighbours
+		hops = append(hops, h)
+	}
+	for _, h := range hops {
 		ifi := base()
 		h := h
 		ifi.HopLimit = &h
@@ -274,7 +279,11 @@ func c02Sweep(yield func(c02Case) bool) {
 			return
 		}
 	}
-	for _, m := range []int64{-1, 0, 1, 1279, 1280, 65535, 65536, 65537, 1 << 31} {
+	mtus := []int64{-1, 0, 1, 1279, 1280, 1500, 9000, 65535, 65536, 65537, 1 << 31, 1 << 32, 1<<32 + 1500, -1500, -65536}
+	for sh := 1; sh <= 17; sh++ { // around every power of two of the range
+		mtus = append(mtus, 1<<sh-1, 1<<sh, 1<<sh+1)
+	}
+	for _, m := range mtus {
 		ifi := base()
 		m := m
 		ifi.MTU = &m
@@ -311,6 +320,14 @@ func c02Sweep(yield func(c02Case) bool) {
 		{Kind: "value", Text: "64:ff9b::/97", Addr: "64:ff9b::", Bits: 97}, {Kind: "value", Text: "64:ff9b::/33", Addr: "64:ff9b::", Bits: 33},
 		{Kind: "value", Text: "64:ff9b::/40", Addr: "64:ff9b::", Bits: 40}, {Kind: "value", Text: "64:ff9b::/48", Addr: "64:ff9b::", Bits: 48},
 		{Kind: "value", Text: "64:ff9b::/56", Addr: "64:ff9b::", Bits: 56}, {Kind: "value", Text: "64:ff9b::/0", Addr: "64:ff9b::", Bits: 0, Host: true},
+	}
+	// every prefix length, for each of the three keys
+	for bits := 0; bits <= 128; bits++ {
+		pp := netip.PrefixFrom(netip.MustParseAddr("2001:db8:1234:5678:9abc:def0:1234:5678"), bits).Masked()
+		cidrs = append(cidrs, dCIDR{Kind: "value", Text: pp.String(), Addr: pp.Addr().String(), Bits: bits})
+	}
+	for bits := 1; bits <= 128; bits++ { // every length of the unspecified network: only ::/64 and ::/0 are wildcards
+		cidrs = append(cidrs, dCIDR{Kind: "value", Text: fmt.Sprintf("::/%d", bits), Addr: "::", Bits: bits})
 	}
 	for _, c := range cidrs {
 		for kind := 0; kind < 3; kind++ {
